@@ -16,6 +16,20 @@
  *  A <q>                   two parties: generate, generate, compute, compute
  *                          -> R <r1><r2><r3><r4> <pubA> <privA> <pubB> <privB> <k1> <k2> <ncalls>
  *                          (each r is '0' or 'f'; buffers of failed calls "-")
+ *  X <fn> <a> <b> <c> <arena> <pub256|-> <priv32|-> <q>
+ *                          overlapping arguments.  <arena> is one exact-size
+ *                          heap block (initial contents given in hex); an
+ *                          argument with offset >= 0 points into it, one with
+ *                          offset -1 is a separate exact-size block holding
+ *                          the token.  fn K: crypto_dh_compute(pub = arena+a,
+ *                          priv = arena+b, key = arena+c); fn G:
+ *                          crypto_dh_generate_pub(pub = arena+c, priv =
+ *                          arena+b) (a = -1, pub token "-").  c >= 0 always.
+ *                          -> R <ret> <arena afterwards> <ncalls>
+ *  V <pub256> <priv32> <q> one buffer used throughout: sanitycheck(buf), then
+ *                          compute(buf, priv, buf) in place, then
+ *                          sanitycheck(buf) on the result
+ *                          -> R <s1> <buf after the first check> <ret> <key|-> <s2> <ncalls>
  *
  * Every input and output buffer is an exact-size heap block (ASan red zones
  * on both sides); outputs are pre-filled with 0xEE so that bytes the library
@@ -203,6 +217,60 @@ main(void)
 
 			printf("R %d\n", crypto_dh_sanitycheck(pub));
 			free(f1);
+		} else if (opc == 'X') {
+			void * fa, * f1 = NULL, * f2 = NULL;
+			const char * fn = vh_tok(&L, 1);
+			long a = (long)vh_tok_i(&L, 2), b = (long)vh_tok_i(&L, 3);
+			long c = (long)vh_tok_i(&L, 4);
+			size_t alen;
+			uint8_t * t = vh_tok_hex(&L, 5, &alen);
+			uint8_t * arena = vh_exact(t, alen, &fa);
+			uint8_t * pub = NULL, * priv, * out;
+			int rc;
+
+			vh_free(t);
+			if (c < 0 || (size_t)c + CRYPTO_DH_PUBLEN > alen)
+				vh_die("output offset %ld outside the arena", c);
+			out = arena + c;
+			if (b >= 0) {
+				if ((size_t)b + CRYPTO_DH_PRIVLEN > alen)
+					vh_die("priv offset %ld outside the arena", b);
+				priv = arena + b;
+			} else
+				priv = tok_exact(&L, 7, CRYPTO_DH_PRIVLEN, &f2);
+			parse_queue(vh_tok(&L, 8));
+			if (fn[0] == 'K') {
+				if (a >= 0) {
+					if ((size_t)a + CRYPTO_DH_PUBLEN > alen)
+						vh_die("pub offset %ld outside the arena", a);
+					pub = arena + a;
+				} else
+					pub = tok_exact(&L, 6, CRYPTO_DH_PUBLEN, &f1);
+				rc = crypto_dh_compute(pub, priv, out);
+			} else if (fn[0] == 'G')
+				rc = crypto_dh_generate_pub(out, priv);
+			else
+				vh_die("bad function %s", fn);
+			printf("R %d", rc);
+			put_or_dash(1, arena, alen);
+			printf(" %zu\n", Q.calls);
+			free(fa); free(f1); free(f2);
+		} else if (opc == 'V') {
+			void * f1, * f2;
+			uint8_t * buf = tok_exact(&L, 1, CRYPTO_DH_PUBLEN, &f1);
+			uint8_t * priv = tok_exact(&L, 2, CRYPTO_DH_PRIVLEN, &f2);
+			int s1, s2, rc;
+
+			parse_queue(vh_tok(&L, 3));
+			s1 = crypto_dh_sanitycheck(buf);
+			printf("R %d", s1);
+			put_or_dash(1, buf, CRYPTO_DH_PUBLEN);
+			rc = crypto_dh_compute(buf, priv, buf);
+			printf(" %d", rc);
+			put_or_dash(rc == 0, buf, CRYPTO_DH_KEYLEN);
+			s2 = (rc == 0) ? crypto_dh_sanitycheck(buf) : 9;
+			printf(" %d %zu\n", s2, Q.calls);
+			free(f1); free(f2);
 		} else if (opc == 'D') {
 			void * f1, * f2;
 			uint8_t * pub = outbuf(CRYPTO_DH_PUBLEN, &f1);
